@@ -5,6 +5,7 @@
    following identifier raise a diagnostic. *)
 From Formula Require Import Base.Utf8 Lex.Chars Lex.Scanner Num.Dec Proofs.Utf8Facts Proofs.LiteralAscii.
 From Formula Require Import Sem.Eval.
+From Formula Require Proofs.BuiltinNumFacts.
 
 (* ---------- syntax of literals ---------- *)
 
@@ -1019,17 +1020,166 @@ Qed.
      forall l rest pos, lit_wf l = true -> (the first character of rest is an identifier start
      other than '_' and other than an 'e'/'E' that starts the exponent) -> tdiags tok <> [].
    It is false of the model: "0" followed by "xA" is scanned by the hexadecimal branch into one
-   number token "0xa" without any diagnostic, and the decimal library reads that value as NaN. *)
+   number token without any diagnostic.  The token is not a silently wrong number, though: its
+   value is "10", the decimal spelling of the hexadecimal integer A, which the decimal library
+   reads as exactly 10 (hex_literal_value below: this holds for every hexadecimal literal). *)
 Theorem ident_after_literal_rejected_refuted : exists l rest,
   lit_wf l = true /\
   (exists r bs R', decode_all rest = (r, bs) :: R' /\ is_ident_start r = true /\ r <> 95 /\ is_e r = false) /\
   let tok := fst (scan_one (decode_all (render l ++ rest)) 0) in
-  tk tok = KNumber /\ tdiags tok = [] /\ tend tok = 3 /\ dec_of_string (tval tok) = NaN.
+  tk tok = KNumber /\ tdiags tok = [] /\ tend tok = 3 /\ tval tok = [49; 48] /\
+  dec_of_string (tval tok) = Fin false 10 0.
 Proof.
   exists (mkLit (Some [[48]]) None None), [120; 65]. split; [reflexivity|]. split.
   - exists 120, [120], [(65, [65])]. split; [reflexivity|]. split; [reflexivity|]. split; [lia|reflexivity].
   - vm_compute. repeat split; reflexivity.
 Qed.
+
+(* ---------- hexadecimal literals: 0x / 0X and at least one hexadecimal digit ---------- *)
+
+(* the decimal spelling of a non-negative integer is read back as that integer *)
+Lemma dec_digits_digits_of : forall c, dec_digits c = digits_of c.
+Proof. reflexivity. Qed.
+
+Lemma dec_digits_facts : forall c, 0 <= c ->
+  forallb is_digit (dec_digits c) = true /\ digits_value (dec_digits c) = c /\ dec_digits c <> [].
+Proof.
+  intros c Hc. rewrite dec_digits_digits_of. exact (BuiltinNumFacts.digits_of_spec c Hc).
+Qed.
+
+Theorem dec_digits_spec : forall c, 0 <= c -> scan_digits (dec_digits c) 0 = Some c.
+Proof.
+  intros c Hc. rewrite dec_digits_digits_of. exact (BuiltinNumFacts.digits_of_scan c Hc).
+Qed.
+
+(* a non-empty string of digits is read as the integer written, with exponent 0 *)
+Lemma dec_of_string_digits : forall ds, ds <> [] -> forallb is_digit ds = true ->
+  dec_of_string ds = Fin false (digits_value ds) 0.
+Proof.
+  intros ds Hne Hd.
+  pose proof (read_number ds [] false None Hd eq_refl (fun _ => eq_refl) (or_introl Hne) eq_refl) as H.
+  cbn [exp_sci exp_val length Z.of_nat app] in H. rewrite !app_nil_r in H. exact H.
+Qed.
+
+Theorem dec_of_string_dec_digits : forall c, 0 <= c -> dec_of_string (dec_digits c) = Fin false c 0.
+Proof.
+  intros c Hc. destruct (dec_digits_facts c Hc) as (Hd & Hv & Hne).
+  rewrite (dec_of_string_digits _ Hne Hd), Hv. reflexivity.
+Qed.
+
+Lemma hex_digit_range : forall d, is_hex_digit d = true ->
+  48 <= d <= 57 \/ 97 <= d <= 102 \/ 65 <= d <= 70.
+Proof.
+  intros d H. unfold is_hex_digit in H. apply orb_true_iff in H. destruct H as [H|H].
+  - apply orb_true_iff in H. destruct H as [H|H].
+    + apply digit_range in H. lia.
+    + apply andb_true_iff in H. destruct H as [H1 H2]. apply Z.leb_le in H1, H2. lia.
+  - apply andb_true_iff in H. destruct H as [H1 H2]. apply Z.leb_le in H1, H2. lia.
+Qed.
+
+Lemma hex_val_lower_range : forall d, is_hex_digit d = true -> 0 <= hex_val (hex_lower d) <= 15.
+Proof.
+  intros d H. apply hex_digit_range in H.
+  assert (E : d = 48 \/ d = 49 \/ d = 50 \/ d = 51 \/ d = 52 \/ d = 53 \/ d = 54 \/ d = 55 \/
+              d = 56 \/ d = 57 \/ d = 97 \/ d = 98 \/ d = 99 \/ d = 100 \/ d = 101 \/ d = 102 \/
+              d = 65 \/ d = 66 \/ d = 67 \/ d = 68 \/ d = 69 \/ d = 70) by lia.
+  clear H. repeat (destruct E as [E|E]; [subst d; vm_compute; split; discriminate|]).
+  subst d. vm_compute. split; discriminate.
+Qed.
+
+Lemma hex_value_acc_nonneg : forall hv acc, forallb is_hex_digit hv = true -> 0 <= acc ->
+  0 <= fold_left (fun a d => a * 16 + hex_val d) (map hex_lower hv) acc.
+Proof.
+  induction hv as [|d hv IH]; intros acc H Hacc; [exact Hacc|].
+  cbn [forallb] in H. apply andb_true_iff in H. destruct H as [Hd Hhv].
+  cbn [map fold_left]. apply IH; [exact Hhv|].
+  pose proof (hex_val_lower_range d Hd). lia.
+Qed.
+
+Lemma hex_value_nonneg : forall hv, forallb is_hex_digit hv = true -> 0 <= hex_value (map hex_lower hv).
+Proof. intros hv H. unfold hex_value. apply hex_value_acc_nonneg; [exact H|lia]. Qed.
+
+(* what ends the run of hexadecimal digits: the end of the input or a non-hexadecimal character *)
+Definition hex_stop (t : list step) : bool :=
+  match t with [] => true | (r, _) :: _ => negb (is_hex_digit r) end.
+
+Lemma hex_run_digits : forall hv t pos acc, forallb is_hex_digit hv = true -> hex_stop t = true ->
+  hex_run (asc hv ++ t) pos acc = (acc ++ map hex_lower hv, t, pos + blen hv).
+Proof.
+  induction hv as [|d hv IH]; intros t pos acc H Ht.
+  - cbn [asc map app]. rewrite app_nil_r, blen_nil, Z.add_0_r.
+    destruct t as [|[r bs] t']; [reflexivity|].
+    cbn [hex_stop] in Ht. apply negb_true_iff in Ht. cbn [hex_run]. rewrite Ht. reflexivity.
+  - cbn [forallb] in H. apply andb_true_iff in H. destruct H as [Hd Hhv].
+    rewrite asc_cons. cbn [app hex_run]. rewrite Hd. change (blen [d]) with 1.
+    rewrite (IH t (pos + 1) (acc ++ [hex_lower d]) Hhv Ht).
+    rewrite <- app_assoc. cbn [app map]. rewrite (blen_cons d hv), Z.add_assoc. reflexivity.
+Qed.
+
+Lemma hex_digits_ascii : forall hv, forallb is_hex_digit hv = true -> Forall (fun b => 0 <= b < 128) hv.
+Proof.
+  induction hv as [|d hv IH]; intros H; [constructor|].
+  cbn [forallb] in H. apply andb_true_iff in H. destruct H as [Hd Hhv].
+  constructor; [apply hex_digit_range in Hd; lia|apply IH, Hhv].
+Qed.
+
+(* scan_one on 0, x / X and one more one-byte character: the hexadecimal branch *)
+Lemma scan_one_hex : forall x h t pos, (x =? 120) || (x =? 88) = true ->
+  scan_one ((48, [48]) :: (x, [x]) :: (h, [h]) :: t) pos =
+  let '(hv, rest, e) := hex_run ((h, [h]) :: t) (pos + 2) [] in
+  match hv with
+  | [] => (mkTok KNumber [48] pos pos e false [(e, 0, C_Hexadecimal_digit_expected)], rest)
+  | _ => (mkTok KNumber (hex_value_digits hv) pos pos e false [], rest)
+  end.
+Proof.
+  intros x h t pos Hx.
+  unfold scan_one. cbn [skip_trivia]. change (trivia_class 48) with 0.
+  cbn [Z.eqb Pos.eqb orb andb].
+  match goal with |- (if ?c then _ else _) = _ =>
+    assert (Hh : c = true) by (cbn [rune_sat nth_error]; rewrite Hx; reflexivity); rewrite Hh
+  end.
+  reflexivity.
+Qed.
+
+(* A hexadecimal literal denotes exactly the integer written: "0x" or "0X", a non-empty run of
+   hexadecimal digits of any length and either case, followed by the end of the input or by
+   anything that is not a hexadecimal digit, is one number token covering exactly that text,
+   without diagnostics, whose value the decimal library reads as the integer [hex_value] of
+   the (lower-cased) digits with exponent 0. *)
+Theorem hex_literal_value : forall x hv rest pos,
+  (x =? 120) || (x =? 88) = true -> hv <> [] -> forallb is_hex_digit hv = true ->
+  hex_stop (decode_all rest) = true ->
+  exists tok,
+    scan_one (decode_all (48 :: x :: hv ++ rest)) pos = (tok, decode_all rest) /\
+    tk tok = KNumber /\ tdiags tok = [] /\
+    tpos tok = pos /\ tend tok = pos + 2 + blen hv /\
+    tval tok = dec_digits (hex_value (map hex_lower hv)) /\
+    dec_of_string (tval tok) = Fin false (hex_value (map hex_lower hv)) 0.
+Proof.
+  intros x hv rest pos Hx Hne Hhv Hstop.
+  assert (Hxa : 0 <= x < 128).
+  { apply orb_true_iff in Hx. destruct Hx as [Hx|Hx]; apply Z.eqb_eq in Hx; lia. }
+  change (48 :: x :: hv ++ rest) with ((48 :: x :: hv) ++ rest).
+  rewrite decode_all_asc
+    by (constructor; [lia|constructor; [exact Hxa|apply hex_digits_ascii; exact Hhv]]).
+  rewrite !asc_cons. cbn [app].
+  destruct hv as [|h hv']; [congruence|].
+  rewrite asc_cons. cbn [app]. rewrite (scan_one_hex x h _ pos Hx).
+  change ((h, [h]) :: asc hv' ++ decode_all rest) with (asc (h :: hv') ++ decode_all rest).
+  rewrite (hex_run_digits (h :: hv') (decode_all rest) (pos + 2) [] Hhv Hstop).
+  cbn [app]. cbn [map].
+  eexists. split; [reflexivity|]. cbn [tk tdiags tpos tend tval].
+  repeat (split; [reflexivity|]).
+  apply dec_of_string_dec_digits. apply (hex_value_nonneg (h :: hv')). exact Hhv.
+Qed.
+
+(* "0x1F" followed by ")" is read as 31, "0XfF" at the end of the input as 255 *)
+Example hex_literal_value_instances :
+  ((120 =? 120) || (120 =? 88) = true /\ [49; 70] <> [] /\ forallb is_hex_digit [49; 70] = true /\
+   hex_stop (decode_all [41]) = true /\ hex_value (map hex_lower [49; 70]) = 31) /\
+  ((88 =? 120) || (88 =? 88) = true /\ [102; 70] <> [] /\ forallb is_hex_digit [102; 70] = true /\
+   hex_stop (decode_all []) = true /\ hex_value (map hex_lower [102; 70]) = 255).
+Proof. repeat split; try reflexivity; discriminate. Qed.
 
 Definition nosign (t : list step) : bool :=
   match t with [] => true | (r, _) :: _ => negb (is_sign r) end.
